@@ -82,7 +82,7 @@ class CGen:
         if x < 91 and self.p(self.lowglobal):
             n = self.ch(["current_date", "Current_Timestamp", "current_time"])
             self.tags.add("global:lower")
-            return n, [("lowglobal", n)]
+            return n, []          # a dialect variable in any letter case is not a column (F-C15-3, fixed)
         if x < 95 and self.maxdepth > 0:
             return "(" + self.subquery(d) + ")", []
         if x < 98:
